@@ -245,7 +245,9 @@ Theorem md_text_clamped lex ilt (src : text) rs re stack n :
   is_boundary (encode src) rs = true -> is_boundary (encode src) re = true ->
   let bs := encode src in
   let tc := char_index bs rs in
-  exists cl out, md_event_step lex ilt src bs rs stack tc (EText n re) = Ok (out, stack) /    cl <= n /\ tc + cl <= char_index bs re /\ char_index bs re <= length src /    (out = [] \/
+  exists cl out, md_event_step lex ilt src bs rs stack tc (EText n re) = Ok (out, stack) /\
+    cl <= n /\ tc + cl <= char_index bs re /\ char_index bs re <= length src /\
+    (out = [] \/
      (0 < cl /\ out = [mktok (mkspan tc (tc + cl)) K_UNLINTABLE]) \/
      (0 < cl /\ out = map (tpush tc) (lex (slice src tc (tc + cl))))).
 Proof.
@@ -263,7 +265,7 @@ Proof.
   - assert (Hpos : 0 < cl) by lia.
     destruct (md_text_cases lex ilt src stack tc cl ltac:(lia)) as (o & Ho & Hcases). rewrite Ho. cbn [bind].
     exists cl, o. repeat split; try assumption.
-    destruct Hcases as [->|[->|->]]; [now left|right; left; now split|right; right; now split].
+    destruct Hcases as [Hc | [Hc | Hc] ]; subst o; [now left|right; left; now split|right; right; now split].
 Qed.
 
 Theorem md_nonprose_tag_silent lex ilt src tag stack tc n out :
@@ -620,6 +622,107 @@ Section CommentProofs.
   Qed.
 End CommentProofs.
 
+(* ---- Go::parse (after 017736b) ---- *)
+Section GoProofs.
+  Variable is_whitespace : N -> bool.
+  Variable inner : text -> list tok.
+
+  Definition GO_DIRECTIVE : text := [103; 111; 58]%N.     (* go: *)
+
+  Lemma go_match (A : Type) (c : text) (x y : A) :
+    match c with 103%N :: 111%N :: 58%N :: _ => x | _ => y end = if starts_with GO_DIRECTIVE c then x else y.
+  Proof.
+    unfold GO_DIRECTIVE. cbn [starts_with].
+    destruct c as [|c0 c1]; [reflexivity|]. destruct (N.eqb_spec 103 c0) as [<-|H0]; cbn [andb].
+    2:{ destruct c0 as [|p]; [reflexivity|]. do 7 (destruct p as [p|p|]; try reflexivity); congruence. }
+    destruct c1 as [|c1 c2]; [reflexivity|]. destruct (N.eqb_spec 111 c1) as [<-|H1]; cbn [andb].
+    2:{ destruct c1 as [|p]; [reflexivity|]. do 7 (destruct p as [p|p|]; try reflexivity); congruence. }
+    destruct c2 as [|c2 c3]; [reflexivity|]. destruct (N.eqb_spec 58 c2) as [<-|H2]; cbn [andb]; [reflexivity|].
+    destruct c2 as [|p]; [reflexivity|]. do 6 (destruct p as [p|p|]; try reflexivity); congruence.
+  Qed.
+
+  (* C04_go_exact: Go::parse never panics and is exactly: the inner parse of the comment without its
+     initiators, shifted by their length — or, when that text starts with "go:", the inner parse of
+     source[t .. actual.end) shifted by t, where t is the first newline of the comment (nothing when
+     there is no newline before actual.end): the directive line is skipped and everything after it is
+     parsed at its own source coordinates *)
+  Theorem go_parse_exact (src : text) :
+    exists actual, without_initiators is_whitespace src = Ok actual /\
+      sstart actual <= send actual <= length src /\
+      go_parse is_whitespace inner src =
+      Ok (if starts_with GO_DIRECTIVE (slice src (sstart actual) (send actual)) then
+            match position is_nl src with
+            | None => []
+            | Some t => if send actual <=? t then []
+                        else map (tpush t) (inner (slice src t (send actual)))
+            end
+          else map (tpush (sstart actual)) (inner (slice src (sstart actual) (send actual)))).
+  Proof.
+    destruct (without_initiators_spec is_whitespace src) as (a & Ha & (H1 & H2) & _).
+    exists a. split; [assumption|]. split; [lia|]. unfold go_parse. rewrite Ha. cbn [bind].
+    rewrite (get_content_in src a) by (unfold span_wf; lia). cbn [bind]. rewrite go_match.
+    destruct (starts_with GO_DIRECTIVE _); [|reflexivity].
+    destruct (position is_nl src) as [t|]; [|reflexivity].
+    destruct (Nat.leb_spec (send a) t); [reflexivity|].
+    rewrite (get_content_in src (mkspan t (send a))) by (unfold span_wf; cbn; lia). reflexivity.
+  Qed.
+
+  Hypothesis inner_wf : forall c t0, In t0 (inner c) -> sstart (tspan t0) <= send (tspan t0).
+  Hypothesis inner_in_bounds : forall c t0, In t0 (inner c) -> send (tspan t0) <= length c.
+
+  (* C04_go_offsets: every token is an inner token of ONE slice source[a .. b) shifted by a: it lies inside
+     [a, b) and has the same text in the file as in the inner parse; [a, b) is the comment without its
+     initiators, or — after a go: directive — starts at the first newline of the comment *)
+  Theorem go_offsets (src : text) toks : go_parse is_whitespace inner src = Ok toks ->
+    exists a b, a <= b <= length src /\
+      (exists actual, without_initiators is_whitespace src = Ok actual /\ b = send actual /\
+         (a = sstart actual \/
+          (starts_with GO_DIRECTIVE (slice src (sstart actual) (send actual)) = true /\ position is_nl src = Some a))) /\
+      Forall (fun tk => exists t0, In t0 (inner (slice src a b)) /\ tk = tpush a t0 /\
+                a <= sstart (tspan tk) /\ sstart (tspan tk) <= send (tspan tk) /\ send (tspan tk) <= b /\
+                slice src (sstart (tspan tk)) (send (tspan tk))
+                = slice (slice src a b) (sstart (tspan t0)) (send (tspan t0))) toks.
+  Proof.
+    intros H. destruct (go_parse_exact src) as (actual & Ha & (H1 & H2) & He).
+    assert (Hshift : forall a b, a <= b <= length src ->
+              Forall (fun tk => exists t0, In t0 (inner (slice src a b)) /\ tk = tpush a t0 /\
+                a <= sstart (tspan tk) /\ sstart (tspan tk) <= send (tspan tk) /\ send (tspan tk) <= b /\
+                slice src (sstart (tspan tk)) (send (tspan tk))
+                = slice (slice src a b) (sstart (tspan t0)) (send (tspan t0))) (map (tpush a) (inner (slice src a b)))).
+    { intros a b Hab. rewrite Forall_forall. intros tk Htk. apply in_map_iff in Htk as (t0 & <- & Ht0).
+      pose proof (inner_in_bounds _ _ Ht0) as Hb. pose proof (inner_wf _ _ Ht0) as Hw.
+      rewrite slice_length in Hb by lia. exists t0. cbn [tpush tspan push_by sstart send].
+      repeat split; try assumption; try lia.
+      rewrite slice_slice by lia. f_equal; lia. }
+    destruct (starts_with GO_DIRECTIVE (slice src (sstart actual) (send actual))) eqn:Eg.
+    - destruct (position is_nl src) as [t|] eqn:Et.
+      + destruct (Nat.leb_spec (send actual) t).
+        * rewrite He in H. inversion H; subst toks.
+          exists (sstart actual), (send actual). split; [lia|]. split; [|constructor].
+          exists actual. repeat split; try assumption. now left.
+        * rewrite He in H. inversion H; subst toks.
+          exists t, (send actual). split; [lia|]. split; [|apply Hshift; lia].
+          exists actual. repeat split; try assumption. right. split; [assumption|reflexivity].
+      + rewrite He in H. inversion H; subst toks.
+        exists (sstart actual), (send actual). split; [lia|]. split; [|constructor].
+        exists actual. repeat split; try assumption. now left.
+    - rewrite He in H. inversion H; subst toks.
+      exists (sstart actual), (send actual). split; [lia|]. split; [|apply Hshift; lia].
+      exists actual. repeat split; try assumption. now left.
+  Qed.
+End GoProofs.
+
+(* the witness of FC04c "//go:build x\n// a" with an inner parser that returns its whole input: before
+   017736b nothing was parsed (and "//go:generate x\n//" underflowed); now the block after the directive
+   line is parsed at its own coordinates, starting at the newline (12) *)
+Example go_directive_keeps_block :
+  go_parse ws_table (fun c => [mktok (mkspan 0 (length c)) 5%N])
+    [47; 47; 103; 111; 58; 98; 117; 105; 108; 100; 32; 120; 10; 47; 47; 32; 97]%N
+  = Ok [mktok (mkspan 12 17) 5%N] /\
+  go_parse ws_table (fun c => [mktok (mkspan 0 (length c)) 5%N])
+    [47; 47; 103; 111; 58; 103; 32; 120; 10; 47; 47]%N = Ok [].
+Proof. vm_compute. split; reflexivity. Qed.
+
 (* ====================================================================================== *)
 (** * D. ignore markers *)
 
@@ -659,57 +762,188 @@ Proof.
     + right. exists p. split; [assumption|]. apply starts_with_spec. eauto.
 Qed.
 
-Lemma filter_ignored_spec markers prefixes src : forall m r,
-  Forall (fun s => span_wf s /\ send s <= length src) m ->
-  filter_ignored markers prefixes src m = Ok r ->
-  r = filter (fun s => negb (ignore_condition markers prefixes (slice src (sstart s) (send s)))) m.
+(* ---- the filter_map of CommentMasker::create_mask as a pure function of one span of the inner mask ---- *)
+Definition keep_of (markers prefixes : list text) (shebang : text) (src : text) (s : span) : option span :=
+  let content := slice src (sstart s) (send s) in
+  if starts_with shebang content then
+    match position is_nl content with
+    | None => None
+    | Some p => if ignore_condition markers prefixes (skipn (p + 1) content) then None
+                else Some (mkspan (sstart s + p + 1) (send s))
+    end
+  else if ignore_condition markers prefixes content then None else Some s.
+
+Fixpoint keep_all (markers prefixes : list text) (shebang : text) (src : text) (m : list span) : list span :=
+  match m with
+  | [] => []
+  | s :: t => match keep_of markers prefixes shebang src s with
+              | Some s' => s' :: keep_all markers prefixes shebang src t
+              | None => keep_all markers prefixes shebang src t
+              end
+  end.
+
+Lemma skipn_slice {A} (l : list A) a b k : skipn k (slice l a b) = slice l (a + k) b.
 Proof.
-  induction m as [|s t IH]; intros r Hm H; cbn in H; [now inversion H|].
-  inversion Hm as [|? ? [Hw Hb] Ht]; subst. rewrite (get_content_in src s Hw Hb) in H. cbn [bind] in H.
-  destruct (filter_ignored markers prefixes src t) as [r'|]; cbn [bind] in H; [|discriminate].
-  cbn [filter]. rewrite <- (IH r' Ht eq_refl).
-  destruct (ignore_condition markers prefixes (slice src (sstart s) (send s))); cbn [negb]; now inversion H.
+  unfold slice. rewrite skipn_firstn_comm, skipn_skipn. f_equal; [lia|]. f_equal. lia.
 Qed.
 
-Lemma in_sinsert x a l : In x (sinsert a l) <-> x = a \/ In x l.
+(* what is kept of a span lies inside it and ends where it ends *)
+Lemma keep_of_sub markers prefixes shebang (src : text) s s' :
+  span_wf s -> send s <= length src -> keep_of markers prefixes shebang src s = Some s' ->
+  sstart s <= sstart s' /\ sstart s' <= send s' /\ send s' = send s.
 Proof.
-  induction l as [|y ys IH]; cbn [sinsert]; [cbn; intuition|].
-  destruct (sstart a <=? sstart y); cbn [In]; [intuition|]. rewrite IH. cbn. intuition.
+  unfold span_wf. intros Hw Hb. unfold keep_of.
+  destruct (starts_with shebang _).
+  - destruct (position is_nl _) as [p|] eqn:Ep; [|discriminate].
+    destruct (position_some _ _ _ Ep) as (Hp & _ & _). pose proof (slice_length src (sstart s) (send s) (conj Hw Hb)) as Hl. unfold char in *.
+    destruct (ignore_condition _ _ _); [discriminate|]. intros H; inversion H; subst s'. cbn [sstart send]. lia.
+  - destruct (ignore_condition _ _ _); [discriminate|]. intros H; inversion H; subst s'. lia.
 Qed.
-Lemma in_ssort x l : In x (ssort l) <-> In x l.
-Proof. induction l as [|a t IH]; cbn [ssort]; [reflexivity|]. rewrite in_sinsert, IH. cbn. intuition. Qed.
+
+(* the filter_map never panics on a well-formed mask (Span::new gets start <= end: the first newline lies
+   inside the span) and computes keep_all *)
+Lemma filter_ignored_spec markers prefixes shebang (src : text) : forall m,
+  Forall (fun s => span_wf s /\ send s <= length src) m ->
+  filter_ignored markers prefixes shebang src m = Ok (keep_all markers prefixes shebang src m).
+Proof.
+  induction m as [|s t IH]; intros Hm; [reflexivity|].
+  inversion Hm as [|? ? [Hw Hb] Ht]; subst. cbn [filter_ignored keep_all].
+  rewrite (get_content_in src s Hw Hb). cbn [bind]. rewrite (IH Ht).
+  unfold filter_one, keep_of. unfold span_wf in Hw.
+  destruct (starts_with shebang _).
+  - destruct (position is_nl _) as [p|] eqn:Ep; cbn [bind]; [|reflexivity].
+    destruct (position_some _ _ _ Ep) as (Hp & _ & _). pose proof (slice_length src (sstart s) (send s) (conj Hw Hb)) as Hl. unfold char in *.
+    unfold span_new. destruct (Nat.ltb_spec (send s) (sstart s + (p + 1))); [lia|]. cbn [bind].
+    rewrite Nat.add_assoc. destruct (ignore_condition _ _ _); reflexivity.
+  - cbn [bind]. destruct (ignore_condition _ _ _); reflexivity.
+Qed.
+
+Lemma in_keep_all markers prefixes shebang (src : text) x : forall m,
+  In x (keep_all markers prefixes shebang src m) <-> exists s0, In s0 m /\ keep_of markers prefixes shebang src s0 = Some x.
+Proof.
+  induction m as [|s t IH]; cbn [keep_all].
+  - split; [intros []|intros (s0 & [] & _)].
+  - destruct (keep_of markers prefixes shebang src s) as [s'|] eqn:E.
+    + cbn [In]. rewrite IH. split.
+      * intros [<-|(s0 & H1 & H2)]; [exists s; split; [now left|assumption]|exists s0; split; [now right|assumption]].
+      * intros (s0 & [<-|H1] & H2); [left; congruence|right; eauto].
+    + rewrite IH. split.
+      * intros (s0 & H1 & H2). exists s0; split; [now right|assumption].
+      * intros (s0 & [<-|H1] & H2); [congruence|eauto].
+Qed.
+
+Lemma keep_all_ordered markers prefixes shebang (src : text) : forall m lo,
+  ordered_from lo m -> Forall (fun s => send s <= length src) m ->
+  ordered_from lo (keep_all markers prefixes shebang src m) /\
+  Forall (fun s => send s <= length src) (keep_all markers prefixes shebang src m).
+Proof.
+  induction m as [|s t IH]; intros lo Ho Hb; cbn [keep_all]; [split; [exact I|constructor]|].
+  cbn [ordered_from] in Ho. destruct Ho as (H1 & H2 & H3). inversion Hb as [|? ? Bs Bt]; subst.
+  destruct (IH (send s) H3 Bt) as [Ho' Hb'].
+  destruct (keep_of markers prefixes shebang src s) as [s'|] eqn:E.
+  - destruct (keep_of_sub _ _ _ _ _ _ H2 Bs E) as (K1 & K2 & K3). split.
+    + cbn [ordered_from]. rewrite K3. repeat split; try assumption; lia.
+    + constructor; [lia|assumption].
+  - split; [|assumption]. apply (ordered_from_weaken _ (send s)); [lia|assumption].
+Qed.
+
+(* C04_comment_mask_total: CommentMasker::create_mask on a well-formed tree-sitter mask never panics, equals
+   the per-span function keep_of applied in order, and is again sorted, disjoint and in bounds *)
+Theorem comment_mask_exact is_whitespace markers prefixes shebang (src : text) nodes m0 :
+  ts_create_mask is_whitespace src nodes = Ok m0 -> mask_wf (length src) m0 ->
+  comment_create_mask is_whitespace markers prefixes shebang src nodes = Ok (keep_all markers prefixes shebang src m0) /\
+  mask_wf (length src) (keep_all markers prefixes shebang src m0).
+Proof.
+  intros H0 [Ho Hb]. unfold comment_create_mask. rewrite H0. cbn [bind].
+  assert (Hm0 : Forall (fun s => span_wf s /\ send s <= length src) m0).
+  { destruct (ordered_from_chain _ _ Ho) as [_ Hw]. rewrite Forall_forall in *. intros x Hx. split; auto. }
+  rewrite (filter_ignored_spec _ _ _ _ _ Hm0). cbn [bind].
+  destruct (keep_all_ordered markers prefixes shebang src m0 0 Ho Hb) as [Ho' Hb'].
+  destruct (ordered_from_chain _ _ Ho') as [Hc Hw]. unfold mask_from_iter. rewrite (ssort_chain _ Hw Hc), Hc.
+  split; [reflexivity|split; assumption].
+Qed.
+
+(* what keep_of = Some means *)
+Lemma keep_of_some markers prefixes shebang (src : text) s0 s :
+  keep_of markers prefixes shebang src s0 = Some s <->
+  let content := slice src (sstart s0) (send s0) in
+  (starts_with shebang content = false /\ ignore_condition markers prefixes content = false /\ s = s0) \/
+  (starts_with shebang content = true /\ exists p, position is_nl content = Some p /\
+     ignore_condition markers prefixes (skipn (p + 1) content) = false /\ s = mkspan (sstart s0 + p + 1) (send s0)).
+Proof.
+  cbv zeta. unfold keep_of. destruct (starts_with shebang _).
+  - destruct (position is_nl _) as [p|].
+    + destruct (ignore_condition _ _ _) eqn:E.
+      * split; [discriminate|]. intros [(H & _)|(_ & q & Hq & Hi & _)]; [discriminate|]. inversion Hq; subst q. congruence.
+      * split.
+        -- intros H; inversion H; subst s. right. split; [reflexivity|]. exists p. repeat split. assumption.
+        -- intros [(H & _)|(_ & q & Hq & _ & ->)]; [discriminate|]. inversion Hq; subst q. reflexivity.
+    + split; [discriminate|]. intros [(H & _)|(_ & q & Hq & _)]; discriminate.
+  - destruct (ignore_condition _ _ _) eqn:E.
+    + split; [discriminate|]. intros [(_ & H & _)|(H & _)]; discriminate.
+    + split.
+      * intros H; inversion H; subst s. left. repeat split.
+      * intros [(_ & _ & ->)|(H & _)]; [reflexivity|discriminate].
+Qed.
 
 (* C04_ignore_markers: whatever the node list, a span of the comment mask never contains one of the
-   GENERATED markers and never starts with a generated prefix ("#!"); and every span of the result is
-   a span of the underlying tree-sitter mask (nothing is invented) *)
+   GENERATED markers; it is a span of the underlying tree-sitter mask that does not start with the
+   generated shebang prefix ("#!"), or such a span that does, minus its first line (up to and including
+   its first newline): nothing is invented, a shebang hides its own line and only that *)
 Theorem ignore_markers_respected is_whitespace (src : text) nodes m0 m :
   ts_create_mask is_whitespace src nodes = Ok m0 -> mask_wf (length src) m0 ->
-  comment_create_mask is_whitespace ignore_markers ignore_prefixes src nodes = Ok m ->
-  forall s, In s m -> In s m0 /\ ~ carries_marker ignore_markers ignore_prefixes (slice src (sstart s) (send s)).
+  comment_create_mask is_whitespace ignore_markers ignore_prefixes shebang_prefix src nodes = Ok m ->
+  forall s, In s m ->
+    ~ carries_marker ignore_markers ignore_prefixes (slice src (sstart s) (send s)) /\
+    exists s0, In s0 m0 /\ send s = send s0 /\
+      ((s = s0 /\ starts_with shebang_prefix (slice src (sstart s0) (send s0)) = false) \/
+       (starts_with shebang_prefix (slice src (sstart s0) (send s0)) = true /\
+        exists p, position is_nl (slice src (sstart s0) (send s0)) = Some p /\
+                  sstart s = sstart s0 + p + 1 /\ sstart s <= send s)).
 Proof.
-  intros H0 [Ho Hb] H s Hs. unfold comment_create_mask in H. rewrite H0 in H. cbn [bind] in H.
-  destruct (filter_ignored ignore_markers ignore_prefixes src m0) as [kept|] eqn:Ek; cbn [bind] in H; [|discriminate].
-  assert (Hm0 : Forall (fun s => span_wf s /\ send s <= length src) m0).
-  { destruct (ordered_from_chain _ _ Ho) as [_ Hw]. rewrite Forall_forall in *. intros x Hx. split; auto. }
-  rewrite (filter_ignored_spec _ _ _ _ _ Hm0 Ek) in H. unfold mask_from_iter in H.
-  destruct (chain_ok _); [|discriminate]. inversion H; subst m. apply -> in_ssort in Hs. apply filter_In in Hs as [Hin Hc].
-  split; [assumption|]. rewrite negb_true_iff in Hc. intros Hcm. apply ignore_condition_spec in Hcm. congruence.
+  intros H0 Hwf H s Hs. destruct (comment_mask_exact is_whitespace ignore_markers ignore_prefixes shebang_prefix src nodes m0 H0 Hwf) as [He _].
+  rewrite He in H. inversion H; subst m. clear H He.
+  apply in_keep_all in Hs as (s0 & Hin & Hk).
+  destruct Hwf as [Ho Hb]. destruct (ordered_from_chain _ _ Ho) as [_ Hw].
+  rewrite Forall_forall in Hw, Hb. pose proof (Hw _ Hin) as Hw0. pose proof (Hb _ Hin) as Hb0.
+  destruct (keep_of_sub _ _ _ _ _ _ Hw0 Hb0 Hk) as (K1 & K2 & K3).
+  apply keep_of_some in Hk. cbv zeta in Hk. destruct Hk as [(Hs1 & Hi & ->)|(Hs1 & p & Hp & Hi & ->)].
+  - split.
+    + intros Hcm. apply ignore_condition_spec in Hcm. congruence.
+    + exists s0. repeat split; try assumption. left. split; [reflexivity|assumption].
+  - cbn [sstart send] in *. split.
+    + rewrite skipn_slice in Hi. rewrite <- Nat.add_assoc. intros Hcm. apply ignore_condition_spec in Hcm. congruence.
+    + exists s0. repeat split; try assumption. right. split; [assumption|]. exists p. repeat split; assumption.
 Qed.
 
-(* and conversely a span without marker is kept *)
+(* and conversely: a span without shebang and without marker is kept whole; of a span that starts with the
+   shebang prefix everything after its first newline is kept when that remainder carries no marker *)
 Theorem unmarked_kept is_whitespace (src : text) nodes m0 m :
   ts_create_mask is_whitespace src nodes = Ok m0 -> mask_wf (length src) m0 ->
-  comment_create_mask is_whitespace ignore_markers ignore_prefixes src nodes = Ok m ->
-  forall s, In s m0 -> ~ carries_marker ignore_markers ignore_prefixes (slice src (sstart s) (send s)) -> In s m.
+  comment_create_mask is_whitespace ignore_markers ignore_prefixes shebang_prefix src nodes = Ok m ->
+  forall s0, In s0 m0 ->
+    let content := slice src (sstart s0) (send s0) in
+    (starts_with shebang_prefix content = false ->
+     ~ carries_marker ignore_markers ignore_prefixes content -> In s0 m) /\
+    (starts_with shebang_prefix content = true -> forall p, position is_nl content = Some p ->
+     ~ carries_marker ignore_markers ignore_prefixes (skipn (p + 1) content) ->
+     In (mkspan (sstart s0 + p + 1) (send s0)) m).
 Proof.
-  intros H0 [Ho Hb] H s Hs Hn. unfold comment_create_mask in H. rewrite H0 in H. cbn [bind] in H.
-  destruct (filter_ignored ignore_markers ignore_prefixes src m0) as [kept|] eqn:Ek; cbn [bind] in H; [|discriminate].
-  assert (Hm0 : Forall (fun s => span_wf s /\ send s <= length src) m0).
-  { destruct (ordered_from_chain _ _ Ho) as [_ Hw]. rewrite Forall_forall in *. intros x Hx. split; auto. }
-  rewrite (filter_ignored_spec _ _ _ _ _ Hm0 Ek) in H. unfold mask_from_iter in H.
-  destruct (chain_ok _); [|discriminate]. inversion H; subst m. apply in_ssort. apply filter_In. split; [assumption|].
-  rewrite negb_true_iff. destruct (ignore_condition _ _ _) eqn:E; [|reflexivity]. apply ignore_condition_spec in E. contradiction.
+  intros H0 Hwf H s0 Hs. destruct (comment_mask_exact is_whitespace ignore_markers ignore_prefixes shebang_prefix src nodes m0 H0 Hwf) as [He _].
+  rewrite He in H. inversion H; subst m. clear H He. cbv zeta. split.
+  - intros Hsh Hn. apply in_keep_all. exists s0. split; [assumption|]. apply keep_of_some. cbv zeta. left.
+    repeat split; try assumption. destruct (ignore_condition _ _ _) eqn:E; [|reflexivity]. apply ignore_condition_spec in E. contradiction.
+  - intros Hsh p Hp Hn. apply in_keep_all. exists s0. split; [assumption|]. apply keep_of_some. cbv zeta. right.
+    split; [assumption|]. exists p. repeat split; try assumption.
+    destruct (ignore_condition _ _ _) eqn:E; [|reflexivity]. apply ignore_condition_spec in E. contradiction.
 Qed.
+
+(* the old behaviour (before 075dccb: the prefix was one more term of the ignore closure, applied to the
+   whole merged span) on the witness of FC04b "#!x\n# a": the whole block vanished; now "# a" is kept *)
+Example shebang_hides_own_line_only :
+  comment_create_mask ws_table ignore_markers ignore_prefixes shebang_prefix
+    [35; 33; 120; 10; 35; 32; 97]%N [mkspan 0 3; mkspan 4 7] = Ok [mkspan 4 7].
+Proof. vm_compute. reflexivity. Qed.
 
 
 (* ====================================================================================== *)
@@ -820,11 +1054,12 @@ Section LhsProofs.
     - exists st'. split; [exact Hrun|]. rewrite Hmask. cbn [l_mask l_loc l_in_code l_last_blank st1]. now rewrite <- app_assoc.
   Qed.
 
-  (* the mask before merging: never panics (F3 is fixed), one span per selected line, never merged by push_allowed *)
+  (* the mask before merging: never panics (F3 is fixed), one span per selected line, never merged by push_allowed;
+     the state machine starts with last_line_blank = TRUE (358394a: the start of the file counts as a blank line) *)
   Theorem lhs_raw_mask_exact src :
-    lhs_raw_mask is_whitespace want_text want_code src = Ok (lhs_spans (split_lines src) 0 false false).
+    lhs_raw_mask is_whitespace want_text want_code src = Ok (lhs_spans (split_lines src) 0 false true).
   Proof.
-    unfold lhs_raw_mask. destruct (lhs_loop_spec (split_lines src) (mklhs [] 0 false false) I (or_intror eq_refl)) as (st' & -> & Hm).
+    unfold lhs_raw_mask. destruct (lhs_loop_spec (split_lines src) (mklhs [] 0 false true) I (or_intror eq_refl)) as (st' & -> & Hm).
     cbn [bind]. now rewrite Hm.
   Qed.
 
@@ -849,19 +1084,101 @@ Section LhsProofs.
     exists m, lhs_create_mask is_whitespace want_text want_code src = Ok m /\ mask_wf (length src) m.
   Proof.
     unfold lhs_create_mask. rewrite lhs_raw_mask_exact. cbn [bind]. apply merge_whitespace_sep_wf.
-    destruct (lhs_spans_wf src (split_lines src) 0 false false (split_lines_at src)) as [Ho Hb]. split; assumption.
+    destruct (lhs_spans_wf src (split_lines src) 0 false true (split_lines_at src)) as [Ho Hb]. split; assumption.
+  Qed.
+
+  (* ---- FC04a fixed (358394a): a bird track may open the file ---- *)
+  Lemma trim_start_snoc_nonws : forall (a : list N) c, is_whitespace c = false ->
+    exists a', trim_start is_whitespace (a ++ [c]) = a' ++ [c].
+  Proof.
+    induction a as [|x a IH]; intros c Hc; cbn [app trim_start].
+    - rewrite Hc. now exists [].
+    - destruct (is_whitespace x); [apply IH; assumption|]. now exists (x :: a).
+  Qed.
+
+  Lemma trim_bird l : is_whitespace 62%N = false -> exists r, trim is_whitespace (62%N :: l) = 62%N :: r.
+  Proof.
+    intros H. unfold trim. cbn [trim_start]. rewrite H. cbn [rev]. unfold char.
+    destruct (trim_start_snoc_nonws (rev l) 62%N H) as [a' ->]. rewrite rev_app_distr. cbn. eauto.
+  Qed.
+
+  (* the first line of the file, when it starts with '>', is a program line: with the machine's initial
+     state (not in code, last_line_blank = TRUE) it switches to code; it yields a span in the code mask
+     only ('> ' skipped), none in the text mask *)
+  Lemma lhs_line_leading_bird l : is_whitespace 62%N = false ->
+    lhs_line 0 false true (62%N :: l) =
+    ((if want_code then Some (mkspan (Nat.min 2 (S (length l))) (S (length l))) else None), true, false).
+  Proof.
+    intros H. unfold lhs_line. destruct (trim_bird l H) as [r ->].
+    unfold BEGIN_CODE, END_CODE. cbn [text_eqb N.eqb Pos.eqb andb orb negb length Nat.add].
+    destruct want_code; reflexivity.
+  Qed.
+
+  Theorem lhs_leading_bird l rest : is_whitespace 62%N = false ->
+    lhs_spans ((62%N :: l) :: rest) 0 false true =
+    (if want_code then [mkspan (Nat.min 2 (S (length l))) (S (length l))] else []) ++
+    lhs_spans rest (S (length l) + 1) true false.
+  Proof.
+    intros H. cbn [lhs_spans]. rewrite (lhs_line_leading_bird l H). cbn [length Nat.add]. destruct want_code; reflexivity.
   Qed.
 End LhsProofs.
 
 (* ====================================================================================== *)
 (** * J. git commit *)
-Theorem git_commit_cut_spec (src : text) :
-  git_commit_cut src <= length src /\ ~ In 35%N (firstn (git_commit_cut src) src) /\
-  (git_commit_cut src < length src -> nth_error src (git_commit_cut src) = Some 35%N).
+
+(* a '#' that opens a line: git's comment lines *)
+Definition line_start_hash (src : text) (i : nat) : Prop :=
+  nth_error src i = Some 35%N /\ (i = 0 \/ exists j, i = S j /\ nth_error src j = Some 10%N).
+
+Lemma git_scan_spec (src : text) : forall rest pre, src = pre ++ rest ->
+  (forall k, k < length pre -> ~ line_start_hash src k) ->
+  exists e, git_scan src (length pre) rest = Ok e /\ e <= length src /\
+    (forall k, k < e -> ~ line_start_hash src k) /\ (e < length src -> line_start_hash src e).
 Proof.
-  unfold git_commit_cut. destruct (position (fun c => (c =? 35)%N) src) as [i|] eqn:E.
-  - destruct (position_some _ _ _ E) as (Hi & (x & Hx & Hp) & Hpre). apply N.eqb_eq in Hp. subst x. split; [apply Nat.lt_le_incl; exact Hi|split; [|auto]].
-    intros Hin. rewrite Forall_forall in Hpre. specialize (Hpre _ Hin). cbn in Hpre. discriminate.
-  - pose proof (position_none _ _ E) as Hall. split; [apply Nat.le_refl|split; [|intros Hlt; exfalso; exact (Nat.lt_irrefl _ Hlt)]].
-    rewrite firstn_all. intros Hin. rewrite Forall_forall in Hall. specialize (Hall _ Hin). cbn in Hall. discriminate.
+  induction rest as [|c t IH]; intros pre Hsrc Hpre.
+  - cbn [git_scan]. exists (length src). rewrite app_nil_r in Hsrc. subst pre.
+    split; [reflexivity|]. split; [lia|]. split; [assumption|lia].
+  - assert (Hc : nth_error src (length pre) = Some c).
+    { rewrite Hsrc, nth_error_app2 by lia. now rewrite Nat.sub_diag. }
+    assert (Hnext : src = (pre ++ [c]) ++ t) by (now rewrite <- app_assoc).
+    assert (Hlen : length (pre ++ [c]) = S (length pre)) by (rewrite app_length; cbn; lia).
+    assert (Hlt : length pre < length src) by (rewrite Hsrc, app_length; cbn; lia).
+    (* continuing the scan when position `length pre` is not a hit *)
+    assert (Hcont : ~ line_start_hash src (length pre) ->
+              exists e, git_scan src (S (length pre)) t = Ok e /\ e <= length src /\
+                (forall k, k < e -> ~ line_start_hash src k) /\ (e < length src -> line_start_hash src e)).
+    { intros Hno. rewrite <- Hlen. apply (IH (pre ++ [c]) Hnext). intros k Hk. rewrite Hlen in Hk.
+      destruct (Nat.eq_dec k (length pre)) as [->|]; [assumption|apply Hpre; lia]. }
+    cbn [git_scan]. destruct (N.eqb_spec c 35) as [->|Hne].
+    + destruct (Nat.eqb_spec (length pre) 0) as [Hz|Hnz]; cbn [bind].
+      * exists (length pre). split; [reflexivity|]. split; [lia|]. split; [assumption|].
+        intros _. split; [assumption|left; assumption].
+      * unfold nth_chk. destruct (nth_error src (length pre - 1)) as [p|] eqn:Ep; cbn [bind].
+        2:{ exfalso. apply nth_error_None in Ep. lia. }
+        destruct (N.eqb_spec p 10) as [->|Hp].
+        -- exists (length pre). split; [reflexivity|]. split; [lia|]. split; [assumption|].
+           intros _. split; [assumption|]. right. exists (length pre - 1). split; [lia|assumption].
+        -- apply Hcont. intros [_ [Hz|(j & Hj & Hnl)]]; [lia|].
+           replace (length pre - 1) with j in Ep by lia. congruence.
+    + cbn [bind]. apply Hcont. intros [H35 _]. congruence.
 Qed.
+
+(* C04_git_commit_cut: the scan never panics (`source[i - 1]` is only evaluated for i > 0); what is parsed
+   is the longest prefix that contains no line starting with '#': a '#' inside a line ("Fixes #123") is
+   ordinary text, and the cut is at the first '#' that opens a line (or the end) *)
+Theorem git_commit_cut_spec (src : text) :
+  exists e, git_commit_cut src = Ok e /\ e <= length src /\
+    (forall k, k < e -> ~ line_start_hash src k) /\ (e < length src -> line_start_hash src e) /\
+    forall inner, git_commit_parse inner src = Ok (inner (firstn e src)).
+Proof.
+  destruct (git_scan_spec src src [] eq_refl) as (e & He & Hle & Hno & Hhit); [cbn; intros k Hk; lia|].
+  exists e. unfold git_commit_parse, git_commit_cut. cbn [length] in He. rewrite He. split; [reflexivity|]. split; [assumption|]. split; [assumption|]. split; [assumption|].
+  intros inner. cbn [bind]. unfold slice_chk. destruct (Nat.ltb_spec e 0); [lia|].
+  destruct (Nat.ltb_spec (length src) e); [lia|]. cbn [orb bind skipn]. now rewrite Nat.sub_0_r.
+Qed.
+
+(* the old cut (before 15b9a7f: the first '#' anywhere) on "Fixes #1 x": the cut was 6, now it is the end *)
+Example git_commit_midline_hash_kept :
+  git_commit_cut [70; 105; 120; 101; 115; 32; 35; 49; 32; 120]%N = Ok 10 /\
+  git_commit_cut [97; 10; 35; 32; 98]%N = Ok 2.
+Proof. vm_compute. split; reflexivity. Qed.
